@@ -419,6 +419,15 @@ func Build(w World, p Params) *Concrete {
 	}
 	embInter := Reissue(pki[w.Get("interPki")].Inter, pki[w.Get("interPki")].Root.Cert, pki[w.Get("interPki")].Root.Key, iw.nb, iw.na, nil)
 	embRoot := Reissue(pki[w.Get("rootPki")].Root, nil, pki[w.Get("rootPki")].Root.Key, rw.nb, rw.na, nil)
+	if w.Get("pool") == "AI" && w.Get("interPki") == "A" {
+		// the caller's bundle lists the platform CA certificate itself -- the one the quote carries, with the validity window the time
+		// dimension gives it (a second, differently dated certificate for the same CA would be a valid trust anchor of its own and the
+		// quote's copy would no longer be on the validated path)
+		c.Pool = x509.NewCertPool()
+		c.Pool.AddCert(embInter.Cert)
+		c.Pool.AddCert(A.Root.Cert)
+		c.PoolDERs = [][]byte{embInter.DER, A.Root.DER}
+	}
 	slotInter := embInter // what the second PEM block carries
 	switch w.Get("interSlot") {
 	case "inter":
@@ -948,15 +957,21 @@ func Build(w World, p Params) *Concrete {
 		raw := NonCanonical(member)
 		signKey := signer.Key
 		hdrCerts := [][]byte{signer.DER, root.DER}
+		// a signer the trusted root did not certify (or not for this) lives in the same validity window as the genuine one: the time dimension's
+		// signer artefact is whichever certificate signs the document
+		sw := win[map[string]string{"tcb": "tcbSigner", "qe": "qeSigner"}[doc]]
 		switch w.Get(signerDim) {
 		case "ok":
 		case "pkiB": // self-consistent collateral of the look-alike PKI
 			var os Entity
 			if doc == "tcb" {
 				os = O.TcbSign
+				if sw != (window{farNB, farNA}) {
+					os = Reissue(O.TcbSign, O.Root.Cert, O.Root.Key, sw.nb, sw.na, nil)
+				}
 			} else {
 				k := NewKey()
-				cc, dd := Issue(CertSpec{CN: CNTcbSign, Serial: big.NewInt(serialBase + 4), NotBefore: farNB, NotAfter: farNA, CRLDP: dps, Pub: &k.PublicKey, Parent: O.Root.Cert, SignKey: O.Root.Key})
+				cc, dd := Issue(CertSpec{CN: CNTcbSign, Serial: big.NewInt(serialBase + 4), NotBefore: sw.nb, NotAfter: sw.na, CRLDP: dps, Pub: &k.PublicKey, Parent: O.Root.Cert, SignKey: O.Root.Key})
 				os = Entity{k, cc, dd}
 			}
 			signKey = os.Key
@@ -966,13 +981,13 @@ func Build(w World, p Params) *Concrete {
 			rc, rd := Issue(CertSpec{CN: CNRoot, Serial: O.Root.Cert.SerialNumber, NotBefore: farNB, NotAfter: farNA, IsCA: true, CRLDP: dps, Pub: &rk.PublicKey, SignKey: rk,
 				SKI: H.Root.Cert.SubjectKeyId})
 			k := NamedKey(ks, "lookalike-ski-signer-"+doc)
-			_, dd := Issue(CertSpec{CN: CNTcbSign, Serial: big.NewInt(serialBase + 3), NotBefore: farNB, NotAfter: farNA, CRLDP: dps, Pub: &k.PublicKey, Parent: rc, SignKey: rk,
+			_, dd := Issue(CertSpec{CN: CNTcbSign, Serial: big.NewInt(serialBase + 3), NotBefore: sw.nb, NotAfter: sw.na, CRLDP: dps, Pub: &k.PublicKey, Parent: rc, SignKey: rk,
 				SKI: signer.Cert.SubjectKeyId})
 			signKey = k
 			hdrCerts = [][]byte{dd, rd}
 		case "ekuOther": // certified by the trusted root under the right name, but restricted to another purpose (TLS client authentication)
 			k := NamedKey(ks, "eku-signer-"+doc)
-			_, dd := Issue(CertSpec{CN: CNTcbSign, Serial: big.NewInt(serialBase + 6), NotBefore: farNB, NotAfter: farNA, CRLDP: dps, Pub: &k.PublicKey,
+			_, dd := Issue(CertSpec{CN: CNTcbSign, Serial: big.NewInt(serialBase + 6), NotBefore: sw.nb, NotAfter: sw.na, CRLDP: dps, Pub: &k.PublicKey,
 				Parent: H.Root.Cert, SignKey: H.Root.Key, EKU: []x509.ExtKeyUsage{x509.ExtKeyUsageClientAuth}})
 			signKey = k
 			hdrCerts = [][]byte{dd, root.DER}
@@ -984,14 +999,14 @@ func Build(w World, p Params) *Concrete {
 			hdrCerts = [][]byte{root.DER, root.DER}
 		case "selfSigned":
 			k := NewKey()
-			_, dd := Issue(CertSpec{CN: CNTcbSign, Serial: big.NewInt(serialBase + 3), NotBefore: farNB, NotAfter: farNA, CRLDP: dps, Pub: &k.PublicKey, SignKey: k})
+			_, dd := Issue(CertSpec{CN: CNTcbSign, Serial: big.NewInt(serialBase + 3), NotBefore: sw.nb, NotAfter: sw.na, CRLDP: dps, Pub: &k.PublicKey, SignKey: k})
 			signKey = k
 			hdrCerts = [][]byte{dd, root.DER}
 		case "lookalikeSameSerial":
 			// a certificate that repeats the genuine TCB-Info signer's subject, issuer name and serial number but carries a
 			// foreign key and is signed by the look-alike root; presented next to the genuine root certificate
 			k := NamedKey(ks, "lookalike-signer")
-			_, dd := Issue(CertSpec{CN: CNTcbSign, Serial: H.TcbSign.Cert.SerialNumber, NotBefore: farNB, NotAfter: farNA, CRLDP: dps, Pub: &k.PublicKey,
+			_, dd := Issue(CertSpec{CN: CNTcbSign, Serial: H.TcbSign.Cert.SerialNumber, NotBefore: sw.nb, NotAfter: sw.na, CRLDP: dps, Pub: &k.PublicKey,
 				Parent: O.Root.Cert, SignKey: O.Root.Key})
 			signKey = k
 			hdrCerts = [][]byte{dd, root.DER}
